@@ -128,7 +128,10 @@ def run(ctx):
             ctx.violation('serialisation-writes-the-layout', sub, i, wit, mech='into_data-raised')
             return
         if ext is False:
-            good = deep_typed_eq(own.val, d.val)[0] and (not model.is_map(d.val) or tagname in d.val)
+            # the variant's own mapping, with the tag readable under the tag's name (added beside a renamed tag field)
+            rest = {k_: v_ for k_, v_ in d.val.items() if k_ != tagname} if model.is_map(d.val) else d.val
+            good = (deep_typed_eq(own.val, d.val)[0] or deep_typed_eq(own.val, rest)[0]) and \
+                (not model.is_map(d.val) or (tagname in d.val and d.val[tagname] == tagval and type(d.val[tagname]) is type(tagval)))
         elif ext is True:
             good = model.is_map(d.val) and len(d.val) == 1 and tagval in d.val and deep_typed_eq(own.val, d.val[tagval])[0] \
                 and type(next(iter(d.val))) is type(tagval)
@@ -143,6 +146,9 @@ def run(ctx):
             return   # C05's scope / known findings, not a layout matter
         if any(f.exclude or not f.init for f in S.fields):
             return
+        from . import c05
+        if not c05.in_scope(ty.a[vi]):
+            return   # the variant's output names are not among its input names: no read-back promised (C05's scope)
         back = observe(env.from_data, d.val, T)
         if back.kind != 'value' or not deep_typed_eq(x, back.val)[0]:
             ctx.violation('serialisation-reads-back', sub, i, {**wit, 'reparsed': back.brief()}, mech='layout-roundtrip')
@@ -175,7 +181,8 @@ def run(ctx):
                     check_into(i, 'main', ty, T, x)
 
     def gen(ctx_, rng):
-        return gentypes.gen_tagged(rng, 1, overlap=rng.random() < 0.6)
+        # a third of the unions have variants with rename styles / aliases / explicit names (the tag field is renamed with the rest)
+        return gentypes.gen_tagged(rng, 1, overlap=rng.random() < 0.6, naming=rng.random() < 0.35)
 
     drive.for_each_case(ctx, 'main', ctx.budget, body, gen=gen)
 
